@@ -161,6 +161,11 @@ def _collect_files_fast(dir_path: Path, recursive: bool = True) -> list[Path]:
     return files
 
 
+def collect_files(dir_path: Path, recursive: bool = True) -> list[Path]:
+    """Files a directory target contributes to a run (hardcoded exclusions applied)."""
+    return _collect_files_fast(dir_path, recursive)
+
+
 def _lint_file_worker(args: tuple[Path, Path, dict]) -> list[dict]:
     """Worker function for parallel file linting.
 
